@@ -58,21 +58,34 @@ def target(tok, dim, cpos_all):
 
 
 class Real:
-    def __init__(self, gs, variant, dim, cfg, seed, nugget=0.0):
-        self.gs, self.variant, self.dim, self.nugget = gs, variant, dim, nugget
+    def __init__(self, gs, variant, dim, cfg, seed, nugget=0.0, opts=()):
+        self.gs, self.variant, self.dim, self.nugget, self.opts = gs, variant, dim, nugget, set(opts)
         self.c = self.build(cfg, seed)
 
     def model(self, tok):
         kw = dict(dim=self.dim, var=2.0, len_scale=LEN[tok], nugget=self.nugget)
         if tok == 3 and self.dim > 1:
             kw.update(anis=0.4, angles=0.5)
+        if "stable" in self.opts:
+            # model tokens 1 and 2 differ ONLY in the shape parameter
+            kw.update(len_scale=LEN[1] if tok in (1, 2) else LEN[3], alpha=0.8 if tok == 2 else 1.5)
+            return self.gs.Stable(**kw)
         return self.gs.Gaussian(**kw)
+
+    def cond_val(self, tok):
+        if "lognormal" in self.opts:    # positive data above the trend
+            return np.array({1: [1.0, 2.0, 0.5], 2: [0.7, 1.5, 3.0]}[tok])
+        return cond_val(tok)
 
     def krige(self, cfg):
         gs = self.gs
-        kw = dict(cond_pos=cond_pos(cfg["cpos"], self.dim), cond_val=cond_val(cfg["cval"]))
-        if self.nugget > 0:
+        kw = dict(cond_pos=cond_pos(cfg["cpos"], self.dim), cond_val=self.cond_val(cfg["cval"]))
+        if "cond_err0" in self.opts:
+            kw["cond_err"] = 0.0            # error-free data although the model has a nugget
+        elif self.nugget > 0:
             kw["exact"] = True
+        if "lognormal" in self.opts:
+            kw.update(normalizer=gs.normalizer.LogNormal(), trend=0.3)
         if self.variant == "Simple":
             return gs.krige.Simple(self.model(cfg["model"]), mean=MEAN[cfg["mean"]], **kw)
         # ordinary kriging has no mean argument: the token drives a constant trend instead
@@ -109,13 +122,20 @@ class Real:
             if op["form"] == "none":
                 c.krige.set_condition()
             elif op["form"] == "val":
-                c.krige.set_condition(cond_val=cond_val(op["cv"]))
+                c.krige.set_condition(cond_val=self.cond_val(op["cv"]))
             elif op["form"] == "pos":
                 c.krige.set_condition(cond_pos=cond_pos(op["cp"], self.dim))
             else:
-                c.krige.set_condition(cond_pos(op["cp"], self.dim), cond_val(op["cv"]))
+                c.krige.set_condition(cond_pos(op["cp"], self.dim), self.cond_val(op["cv"]))
         elif n == "ChangeModel":
-            if op["how"] == "inplace":
+            if op["how"] == "inplace" and "stable" in self.opts:
+                new = self.model(op["m"])
+                c.model.len_scale = new.len_scale
+                c.model.alpha = new.alpha
+                if self.dim > 1:
+                    c.model.anis = new.anis
+                    c.model.angles = new.angles
+            elif op["how"] == "inplace":
                 c.model.len_scale = LEN[op["m"]]
                 if self.dim > 1:
                     c.model.anis = 0.4 if op["m"] == 3 else 1.0
@@ -149,16 +169,17 @@ def since_last_compare(hist):
     return "+".join(out) or "none"
 
 
-def replay(col, gs, variant, dim, beh, origin, nugget=0.0, big=False):
+def replay(col, gs, variant, dim, beh, origin, nugget=0.0, big=False, opts=()):
     buffer_mode = big == "buffer"
     big = big is True
     OFF[0] = BIG if big else 0.0
     st0 = beh[0]
     cpos_all = [cond_pos(1, dim), cond_pos(2, dim)]
-    r = Real(gs, variant, dim, st0["cfg"], st0["seed"], nugget)
+    r = Real(gs, variant, dim, st0["cfg"], st0["seed"], nugget, opts)
     r.buffer_mode = buffer_mode
     hist, ncmp = [], 0
-    vtag = "%s%s%s%s" % (variant, ":nugget" if nugget else "", ":bigcoords" if big else "", ":posbuffer" if buffer_mode else "")
+    vtag = "%s%s%s%s%s" % (variant, ":nugget" if nugget else "", ":bigcoords" if big else "", ":posbuffer" if buffer_mode else "",
+                           "".join(":" + o for o in sorted(opts)))
     for st in beh[1:]:
         op = st["op"]
         hist.append(op)
@@ -171,7 +192,7 @@ def replay(col, gs, variant, dim, beh, origin, nugget=0.0, big=False):
         sig = "%s:%s" % (vtag, since_last_compare(hist))
         f = np.array(out)
         # (1) the property's own oracle: a freshly built object
-        fresh = Real(gs, variant, dim, cfg, seed, nugget)
+        fresh = Real(gs, variant, dim, cfg, seed, nugget, opts)
         pos = target(ptok, dim, cpos_all)
         ff = np.array(fresh.c(pos))
         pairs = []
@@ -203,6 +224,8 @@ def replay(col, gs, variant, dim, beh, origin, nugget=0.0, big=False):
             expect = mean + kf + np.sqrt(vs / 2.0) * raw + np.sqrt((kv - vs) / nugget) * noise
         else:
             expect = mean + kf + np.sqrt(kv / 2.0) * raw
+        if "lognormal" in opts:     # output = trend + denormalize(mean + conditioned raw field)
+            expect = 0.3 + np.exp(expect)
         if not np.allclose(ff, expect, rtol=0, atol=1e-8):
             col.violation("formula:%s" % vtag,
                           "CondSRF(%s, dim %d): field != mean + krige + sqrt(krige_var/var) * unconditional field of the same seed (+ scaled nugget) (max |d| = %.3g)"
@@ -210,9 +233,9 @@ def replay(col, gs, variant, dim, beh, origin, nugget=0.0, big=False):
             return ncmp
         # (3) the data are honoured (zero measurement error / exact kriging)
         cp = cond_pos(cfg["cpos"], dim)
-        cv = cond_val(cfg["cval"])
+        cv = fresh.cond_val(cfg["cval"])
         P = np.array(pos)
-        for i in range(len(cv)):
+        for i in range(len(cv) if "cond_err0" not in opts else 0):   # (with a nugget model the field carries nugget noise at the data)
             j = np.where(np.all(np.isclose(P.T, np.array([c[i] for c in cp]), rtol=0, atol=1e-9), axis=1))[0]
             if len(j) and abs(f[j[0]] - cv[i]) > 1e-6:
                 col.violation("data-not-honoured:%s" % vtag,
@@ -220,7 +243,7 @@ def replay(col, gs, variant, dim, beh, origin, nugget=0.0, big=False):
                               % (vtag, dim, i, float(f[j[0]]), float(cv[i])), rp)
                 return ncmp
         # (4) far from the data simple kriging tends to mean + unconditional field
-        if variant == "Simple" and nugget == 0:
+        if variant == "Simple" and nugget == 0 and not opts:
             far = int(np.argmax(P[0]))
             if abs(f[far] - (mean + raw[far])) > 1e-6:
                 col.violation("far-field:Simple", "CondSRF(Simple, dim %d): far from the data field - (mean + raw) = %.3g"
@@ -253,18 +276,18 @@ class _Collect:
 
 
 def _work(job):
-    variant, dim, nugget, big, behs = job
+    variant, dim, nugget, big, opts, behs = job
     warnings.simplefilter("ignore")
     import gstools as gs
 
     col = _Collect()
     out = {"traces": 0, "cmp": 0, "nontrivial": set(), "samples": []}
     for origin, sts in behs:
-        n = replay(col, gs, variant, dim, sts, origin, nugget, big)
+        n = replay(col, gs, variant, dim, sts, origin, nugget, big, opts)
         out["traces"] += 1
         out["cmp"] += n
         if n:
-            out["nontrivial"].add(hash((variant, dim, nugget, big, tlaval.freeze([s["op"] for s in sts]))))
+            out["nontrivial"].add(hash((variant, dim, nugget, big, opts, tlaval.freeze([s["op"] for s in sts]))))
         if not out["samples"] and origin == "simulate" and n:
             out["samples"].append({"variant": variant, "dim": dim, "ops": [tlaval.to_tla(s["op"]) for s in sts[1:]][:10]})
     out["violations"] = col.violations
@@ -428,15 +451,19 @@ def run(pid, tier, seed, replay=None):
         behs = [b for b in behs if any(s["op"]["name"] == "Call" and s["op"]["compare"] for s in b[1][1:])]
         trace_validation(rep, sc, tier, rng)
     work = []
-    combos = [("Simple", 1, 0.0, False), ("Ordinary", 2, 0.0, False), ("Simple", 2, 0.3, False), ("Ordinary", 1, 0.0, True),
-              ("Simple", 2, 0.0, True), ("Simple", 1, 0.0, "buffer"), ("Ordinary", 2, 0.0, "buffer")]
+    combos = [("Simple", 1, 0.0, False, ()), ("Ordinary", 2, 0.0, False, ()), ("Simple", 2, 0.3, False, ()), ("Ordinary", 1, 0.0, True, ()),
+              ("Simple", 2, 0.0, True, ()), ("Simple", 1, 0.0, "buffer", ()), ("Ordinary", 2, 0.0, "buffer", ()),
+              ("Simple", 1, 0.3, False, ("cond_err0",)), ("Simple", 2, 0.0, False, ("lognormal",)), ("Simple", 1, 0.0, False, ("stable",))]
     if thorough:
-        combos += [("Ordinary", 1, 0.0, False), ("Simple", 2, 0.0, False), ("Ordinary", 2, 0.3, False), ("Ordinary", 2, 0.0, True)]
-    for ci, (variant, dim, nugget, big) in enumerate(combos):
+        combos += [("Ordinary", 1, 0.0, False, ()), ("Simple", 2, 0.0, False, ()), ("Ordinary", 2, 0.3, False, ()), ("Ordinary", 2, 0.0, True, ()),
+                   ("Ordinary", 2, 0.3, False, ("cond_err0",)), ("Ordinary", 1, 0.0, False, ("lognormal",)), ("Ordinary", 2, 0.0, False, ("stable",))]
+    for ci, (variant, dim, nugget, big, opts) in enumerate(combos):
         n = 6
         sub = behs if thorough else behs[ci % 2::2]
+        if "stable" in opts:        # spectral sampling of the Stable model is slow (MCMC): fewer behaviours
+            sub = sub[:: (4 if thorough else 8)]
         for i in range(n):
-            work.append((variant, dim, nugget, big, sub[i::n]))
+            work.append((variant, dim, nugget, big, opts, sub[i::n]))
     import multiprocessing as mp
 
     with mp.get_context("fork").Pool(14) as pool:
